@@ -3,6 +3,7 @@ import IbModel.Proofs.CombInst
 import IbModel.Proofs.CombTransfer
 import IbModel.Proofs.VecSplit
 import IbModel.Model.Program
+import IbModel.Proofs.UserCombiners
 /-!
 # C05 — per-key and global combines equal a fold, once per key, and always terminate
 
@@ -411,6 +412,62 @@ theorem lawful_maxT : LawfulCombiner Comb.maxT.toCombiner Eq := by
     (`Proofs/CombTransfer.lean`): lawful on the nose, for every `k` (0 included) and ALL values. -/
 theorem lawful_topK (k : Nat) : LawfulCombiner (Comb.topK k).toCombiner Eq := topKVal_lawful k
 
+/-! ## USER combiners: from the property's own hypothesis to `LawfulCombiner`
+
+C05 says "built-in combiners and any user combiner that is associative and commutative". Every theorem above takes
+`LawfulCombiner c R`; `user_combiner_lawful` derives that from the plain algebraic laws a user would check
+(`AlgebraicLaws c R I`, `Proofs/UserCombiners.lean`: `merge` associative and commutative with unit `create`,
+`add_input a x ~ merge a (add_input create x)`, `build_from_group ~ the fold` — up to an accumulator equivalence `R`
+that `finish` cannot see through, on the accumulators `I` reachable from `create`), and `user_combiner_lawful_eq` is
+the literal reading (equations on all accumulators). So the hypothesis of the C05 theorems IS the property's. -/
+
+theorem user_combiner_lawful {I : Val → Prop} (h : AlgebraicLaws c R I) : LawfulCombiner c R :=
+  lawful_of_algebraic_laws h
+
+theorem user_combiner_lawful_eq (c : VCombiner)
+    (assoc : ∀ a b d, c.merge (c.merge a b) d = c.merge a (c.merge b d))
+    (comm : ∀ a b, c.merge a b = c.merge b a)
+    (unit : ∀ a, c.merge a c.create = a)
+    (add_merge : ∀ a v, c.add a v = c.merge a (c.add c.create v))
+    (build_fold : ∀ xs, c.build xs = xs.foldl c.add c.create) : LawfulCombiner c Eq :=
+  lawful_of_comm_monoid c assoc comm unit add_merge build_fold
+
+/-- … hence, for ANY user combiner with those laws: one row per key holding `finish (fold of the key's values)` on
+    every partition list, and exactly one row `finish (fold of all rows)` for every fan-out — the statement of C05 -/
+theorem user_combiner_per_key_and_global {I : Val → Prop} (h : AlgebraicLaws c R I) (ps : List (List Val)) :
+    ((combineMerge c (ps.map (combineLocalPairs c))).map Val.key).Nodup ∧
+    (∀ k, lookupKV (decAccs (combineMerge c (ps.map (combineLocalPairs c)))) k =
+      if k ∈ ps.flatten.map Val.key
+      then some (c.finish (c.foldAdd c.create ((ps.flatten.filter (fun r => r.key == k)).map Val.value)))
+      else none) ∧
+    (∀ k, lookupKV (decAccs (combineMerge c (ps.map (combineLocalGroups c)))) k =
+      if k ∈ ps.flatten.map Val.key
+      then some (c.finish (c.foldAdd c.create
+        ((ps.flatten.filter (fun r => r.key == k)).map (fun r => r.value.toList)).flatten))
+      else none) ∧
+    (∀ fo, stepSubPar ps (combineGlobalNode c fo) = pure [[c.finish (c.foldAdd c.create ps.flatten)]]) ∧
+    (∀ fo, stepSubPar ps (combineGlobalLiftedNode c fo) = pure [[c.finish (c.foldAdd c.create ps.flatten)]]) :=
+  have hc := lawful_of_algebraic_laws h
+  ⟨cv_keys_nodup c _, cv_value hc ps, lifted_value hc ps, fun fo => cg_par_value hc fo ps,
+    fun fo => cg_lifted_par_value hc fo ps⟩
+
+/-- non-vacuity of the bridge: the three user combiners of the pipeline model (harness `pipe_ucomb.rs`; accumulators
+    `(sum mod m, count)`, a sorted `Vec`, a one-slot `Vec`) satisfy the plain algebraic laws — for EVERY modulus -/
+theorem user_combiners_algebraic (m : Int) :
+    AlgebraicLaws (userSumMod m) Eq (SumModInv m) ∧ AlgebraicLaws userUnion Eq UnionInv ∧
+      AlgebraicLaws userMaxAbs Eq MaxAbsInv :=
+  ⟨userSumMod_laws m, userUnion_laws, userMaxAbs_laws⟩
+
+theorem lawful_uSumMod (m : Int) : LawfulCombiner (Comb.uSumMod m).toCombiner Eq :=
+  lawful_of_algebraic_laws (userSumMod_laws m)
+theorem lawful_uUnion : LawfulCombiner Comb.uUnion.toCombiner Eq := lawful_of_algebraic_laws userUnion_laws
+theorem lawful_uMaxAbs : LawfulCombiner Comb.uMaxAbs.toCombiner Eq := lawful_of_algebraic_laws userMaxAbs_laws
+
+/-- NEGATIVE CONTROL (outside the hypothesis): "first seen" — `merge a b = a` unless `a` is empty — is associative
+    but NOT commutative, so the bridge does not apply to it (the witness shows the failing law) -/
+example : let first : Val → Val → Val := fun a b => match a with | .none => b | _ => a
+    first (.some (.int 1)) (.some (.int 2)) ≠ first (.some (.int 2)) (.some (.int 1)) := by decide
+
 /-- every combiner of the program library is lawful on the nose -/
 theorem lawful_all (c : Comb) : LawfulCombiner c.toCombiner Eq := by
   cases c with
@@ -422,6 +479,9 @@ theorem lawful_all (c : Comb) : LawfulCombiner c.toCombiner Eq := by
   | maxT => exact lawful_maxT
   | distinctSet => exact lawful_distinctSet
   | topK k => exact lawful_topK k
+  | uSumMod m => exact lawful_uSumMod m
+  | uUnion => exact lawful_uUnion
+  | uMaxAbs => exact lawful_uMaxAbs
 
 /-- the order TopK / Min / Max use is a total order on ALL values — in particular antisymmetric, which the
     former tie-break on the encoded text was not (`cons 1 0` and `cons 1 nil` have the same text) -/
@@ -549,5 +609,87 @@ theorem distinct_seq (rows : List Val) :
 theorem distinct_spec (xs : List Val) :
     (addKeys [] xs).Nodup ∧ ∀ x, x ∈ addKeys [] xs ↔ x ∈ xs :=
   ⟨nodup_addKeys List.nodup_nil, fun x => by rw [mem_addKeys]; simp⟩
+
+/-! ## the derived `distinct_per_key`, as the COMPOSED pipeline the planner actually runs -/
+
+/-- `distinct_per_key` inserts `group_by_key → combine_values_lifted(DistinctSet) → flat_map(ungroup)`; the planner's
+    lift pass turns that window into ONE classic combine over the raw `(k, v)` rows (the GBK is dropped,
+    `local_groups` cleared) followed by the ungroup -/
+theorem distinct_per_key_plan (c : VCombiner) (ops : List (DynOp Part)) :
+    liftGbk [gbkNode, combineValuesLiftedNode c, .stateless ops] = [combineValuesNode c, .stateless ops] := by
+  simp [liftGbk, gbkNode, combineValuesLiftedNode, combineValuesNode]
+
+/-- what a key's rows look like after `distinct_per_key`: its distinct values, each once -/
+def distinctRowsOf (rows : List Val) : List Val :=
+  (addKeys [] (rows.map Val.key)).flatMap (fun k =>
+    (addKeys [] ((rows.filter (fun r => r.key == k)).map Val.value)).map (fun v => Val.pair k v))
+
+theorem ungroup_distinct_rows (rows : List Val) :
+    ((addKeys [] (rows.map Val.key)).map (fun k => Val.pair k
+      (Comb.distinctSet.toCombiner.finish (Comb.distinctSet.toCombiner.foldAdd Comb.distinctSet.toCombiner.create
+        ((rows.filter (fun r => r.key == k)).map Val.value))))).flatMap ungroupF = distinctRowsOf rows := by
+  unfold distinctRowsOf
+  rw [List.flatMap_map]
+  congr 1
+  funext k
+  rw [distinctSet_value]
+  simp [ungroupF, Val.key, Val.value]
+
+/-- PARALLEL engine, ANY partition list: the planned `distinct_per_key` (classic `DistinctSet` combine, then ungroup)
+    returns one partition holding, for every key of the input, each of its distinct values exactly once -/
+theorem distinct_per_key_composed_par (ps : List (List Val)) :
+    (do let a ← stepSubPar ps (combineValuesNode Comb.distinctSet.toCombiner)
+        stepSubPar a (st (flatMapOp ungroupF))) = pure [distinctRowsOf ps.flatten] := by
+  simp only [combineValuesNode, stepSubPar, Option.getD_none, pure_bind, st, List.map_cons, List.map_nil]
+  rw [cv_closed_form lawful_distinctSet ps]
+  simp only [applyOps, List.foldl_cons, List.foldl_nil, flatMapOp, withFlags]
+  rw [ungroup_distinct_rows]
+
+/-- SEQUENTIAL engine: the same rows -/
+theorem distinct_per_key_composed_seq (rows : List Val) :
+    (do let a ← stepSubSeq (some rows) (combineValuesNode Comb.distinctSet.toCombiner)
+        stepSubSeq (some a) (st (flatMapOp ungroupF))) = pure (distinctRowsOf rows) := by
+  simp only [combineValuesNode, stepSubSeq, need, Option.getD_none, pure_bind, st]
+  have h := cv_closed_form lawful_distinctSet [rows]
+  simp only [List.map_cons, List.map_nil, List.flatten_cons, List.flatten_nil, List.append_nil] at h
+  rw [h]
+  simp only [applyOps, List.foldl_cons, List.foldl_nil, flatMapOp, withFlags]
+  rw [ungroup_distinct_rows]
+
+/-- the specification of those rows: pairwise distinct, and `(k, v)` is among them iff it is an input row
+    (inputs are `(K, V)` rows, i.e. pairs) -/
+theorem distinct_per_key_spec (rows : List Val) (hrows : ∀ r ∈ rows, ∃ k v, r = Val.pair k v) :
+    (distinctRowsOf rows).Nodup ∧ ∀ x, x ∈ distinctRowsOf rows ↔ x ∈ rows := by
+  constructor
+  · unfold distinctRowsOf
+    rw [List.nodup_iff_pairwise_ne, List.pairwise_flatMap]
+    refine ⟨?_, ?_⟩
+    · intro k _
+      refine List.Pairwise.map _ ?_ (List.nodup_iff_pairwise_ne.mp (nodup_addKeys List.nodup_nil))
+      intro a b hab h
+      injection h with _ h2
+      exact hab h2
+    · have hn : (addKeys [] (rows.map Val.key)).Nodup := nodup_addKeys List.nodup_nil
+      refine List.Pairwise.imp ?_ (List.nodup_iff_pairwise_ne.mp hn)
+      intro a b hab x hx y hy
+      simp only [List.mem_map] at hx hy
+      obtain ⟨v, _, rfl⟩ := hx
+      obtain ⟨w, _, rfl⟩ := hy
+      intro h
+      injection h with h1 _
+      exact hab h1
+  · intro x
+    unfold distinctRowsOf
+    simp only [List.mem_flatMap, List.mem_map, mem_addKeys, List.not_mem_nil, false_or, List.mem_filter,
+      beq_iff_eq]
+    constructor
+    · rintro ⟨k, _, v, ⟨r, ⟨hr, hk⟩, rfl⟩, rfl⟩
+      obtain ⟨k', v', rfl⟩ := hrows r hr
+      simp only [Val.key] at hk
+      subst hk
+      exact hr
+    · intro hx
+      obtain ⟨k, v, rfl⟩ := hrows x hx
+      exact ⟨k, ⟨_, hx, rfl⟩, v, ⟨_, ⟨hx, rfl⟩, rfl⟩, rfl⟩
 
 end IB
